@@ -3,7 +3,7 @@ CONSTANTS
   Classes = {"accept", "imm", "multi"}
   MaxTrig = 2
   MaxPoll = 3
-  FixDrvDrop = FALSE
+  FixDrvDrop = TRUE
 SPECIFICATION FairSpec
-INVARIANTS Safe
-PROPERTIES DeliveredModuloKnown
+INVARIANTS Safe NeverLeaked
+PROPERTIES Delivered
